@@ -40,6 +40,8 @@ type c14Case struct {
 	// its parent directory exists and the path is still free (done from the Chown callback, the one place where
 	// a caller's code runs between two steps of a copy)
 	Plant string `json:"plant,omitempty"`
+	// Disk: the sandbox lies on a disk file system (inode numbers are handed out again at once)
+	Disk bool `json:"disk,omitempty"`
 }
 
 func (c c14Case) String() string {
@@ -50,6 +52,9 @@ func (c c14Case) String() string {
 	}
 	if c.Plant != "" {
 		s += fmt.Sprintf(" link-to-outside-appears-at=%q", c.Plant)
+	}
+	if c.Disk {
+		s += " sandbox-on-disk-filesystem"
 	}
 	return s
 }
@@ -229,31 +234,40 @@ func c14Cases(tier string) []c14Case {
 	// two directories whose contents merge when both match a wildcard: the first brings a link to an outside file
 	// (and one to an outside directory), the second a regular file and a directory at the same relative paths
 	T := fsmodel.T0
-	merge := append(srcBase.Clone(),
-		fsmodel.Node{Path: "m1", Kind: fsmodel.Dir, Perm: 0755, Mtime: T}, fsmodel.Node{Path: "m1/sub", Kind: fsmodel.Dir, Perm: 0755, Mtime: T},
-		fsmodel.Node{Path: "m1/sub/x", Kind: fsmodel.Symlink, Perm: 0777, Mtime: T, Link: "/outside/f"}, fsmodel.Node{Path: "m1/sub/y", Kind: fsmodel.Symlink, Perm: 0777, Mtime: T, Link: "/outside/d"},
-		fsmodel.Node{Path: "m2", Kind: fsmodel.Dir, Perm: 0755, Mtime: T}, fsmodel.Node{Path: "m2/sub", Kind: fsmodel.Dir, Perm: 0755, Mtime: T},
-		fsmodel.Node{Path: "m2/sub/x", Kind: fsmodel.File, Perm: 0644, Mtime: T + 5, Data: []byte("SRC:m2/sub/x")}, fsmodel.Node{Path: "m2/sub/y", Kind: fsmodel.Dir, Perm: 0755, Mtime: T},
-		fsmodel.Node{Path: "m2/sub/y/g", Kind: fsmodel.File, Perm: 0644, Mtime: T + 6, Data: []byte("SRC:m2/sub/y/g")})
-	mergeXY := merge.Clone()
-	mergeXY.Sort()
-	srcV = append(srcV, mergeXY)
-	// ... and an inode with two names whose destination paths coincide, with a link to an outside file copied onto
-	// that path in between
-	mergeZ := append(merge.Clone(), fsmodel.Node{Path: "m1/sub/z", Kind: fsmodel.File, Perm: 0640, Mtime: T + 7, Data: []byte("SRC:z"), HL: 1},
-		fsmodel.Node{Path: "m2/sub/z", Kind: fsmodel.Symlink, Perm: 0777, Mtime: T, Link: "/outside/f"},
-		fsmodel.Node{Path: "m3", Kind: fsmodel.Dir, Perm: 0755, Mtime: T}, fsmodel.Node{Path: "m3/sub", Kind: fsmodel.Dir, Perm: 0755, Mtime: T},
-		fsmodel.Node{Path: "m3/sub/z", Kind: fsmodel.File, Perm: 0640, Mtime: T + 7, Data: []byte("SRC:z"), HL: 1})
-	mergeZ.Sort()
-	srcV = append(srcV, mergeZ)
-	// ... and the same with different final names: the second name of the inode is linked to a destination path
-	// that a link to an outside file has taken over in between. (Separate trees: a copy that stops at one of these
-	// entries would otherwise never reach the ones sorted after it.)
-	merge = append(mergeZ.Clone(), fsmodel.Node{Path: "m1/sub/h1", Kind: fsmodel.File, Perm: 0600, Mtime: T + 8, Data: []byte("SRC:h"), HL: 2},
-		fsmodel.Node{Path: "m2/sub/h1", Kind: fsmodel.Symlink, Perm: 0777, Mtime: T, Link: "/outside/f"},
-		fsmodel.Node{Path: "m3/sub/h2", Kind: fsmodel.File, Perm: 0600, Mtime: T + 8, Data: []byte("SRC:h"), HL: 2})
-	merge.Sort()
-	srcV = append(srcV, merge)
+	mdir := func(ps ...string) (out fsmodel.Tree) {
+		for _, p := range ps {
+			out = append(out, fsmodel.Node{Path: p, Kind: fsmodel.Dir, Perm: 0755, Mtime: T})
+		}
+		return
+	}
+	// (one tree per hazard and their union: a copy that stops at one of these entries never reaches what is sorted
+	// after it, or the matches after it)
+	xy := fsmodel.Tree{{Path: "m1/sub/x", Kind: fsmodel.Symlink, Perm: 0777, Mtime: T, Link: "/outside/f"}, {Path: "m1/sub/y", Kind: fsmodel.Symlink, Perm: 0777, Mtime: T, Link: "/outside/d"},
+		{Path: "m2/sub/x", Kind: fsmodel.File, Perm: 0644, Mtime: T + 5, Data: []byte("SRC:m2/sub/x")}, {Path: "m2/sub/y", Kind: fsmodel.Dir, Perm: 0755, Mtime: T},
+		{Path: "m2/sub/y/g", Kind: fsmodel.File, Perm: 0644, Mtime: T + 6, Data: []byte("SRC:m2/sub/y/g")}}
+	// an inode with two names whose destination paths coincide, with a link to an outside file copied onto that path
+	// in between
+	zz := fsmodel.Tree{{Path: "m1/sub/z", Kind: fsmodel.File, Perm: 0640, Mtime: T + 7, Data: []byte("SRC:z"), HL: 1},
+		{Path: "m2/sub/z", Kind: fsmodel.Symlink, Perm: 0777, Mtime: T, Link: "/outside/f"},
+		{Path: "m3/sub/z", Kind: fsmodel.File, Perm: 0640, Mtime: T + 7, Data: []byte("SRC:z"), HL: 1}}
+	// the same with different final names: the second name of the inode is linked to a destination path that a link to
+	// an outside file has taken over in between; once with the mode the outside file has, once with another one, once
+	// with the time the link carries
+	hh := fsmodel.Tree{{Path: "m1/sub/h1", Kind: fsmodel.File, Perm: 0600, Mtime: T + 8, Data: []byte("SRC:h"), HL: 2},
+		{Path: "m2/sub/h1", Kind: fsmodel.Symlink, Perm: 0777, Mtime: T, Link: "/outside/f"},
+		{Path: "m3/sub/h2", Kind: fsmodel.File, Perm: 0600, Mtime: T + 8, Data: []byte("SRC:h"), HL: 2}}
+	hm := fsmodel.Tree{{Path: "m1/sub/k1", Kind: fsmodel.File, Perm: 0755, Mtime: T, Data: []byte("SRC:k"), HL: 3},
+		{Path: "m2/sub/k1", Kind: fsmodel.Symlink, Perm: 0777, Mtime: T, Link: "/outside/f"},
+		{Path: "m3/sub/k2", Kind: fsmodel.File, Perm: 0755, Mtime: T, Data: []byte("SRC:k"), HL: 3}}
+	dirs := mdir("m1", "m1/sub", "m2", "m2/sub", "m3", "m3/sub")
+	for _, part := range []fsmodel.Tree{xy, zz, hh, hm, append(append(append(xy.Clone(), zz...), hh...), hm...)} {
+		mt := append(append(srcBase.Clone(), dirs...), part...)
+		mt.Sort()
+		if !mt.Valid() {
+			panic("c14: merge tree invalid")
+		}
+		srcV = append(srcV, mt)
+	}
 	srcArgs := []string{"/", "a", "a/f", "b", "*", "a/*", "l", "l/f", "c", "?", "a/..", "c/../a/..", "a/../../b", "l/a/f", "l/a", "l/a/*", "m?", "m?/sub", "*/sub", "..", "../.", "a/../..", "../b"}
 	dstArgs := []string{"/", "a", "a/f", "x", "new", "l", "l/sub", "x/", "l/", "l/new/sub", "l/new/sub/"}
 	var pairs [][2]fsmodel.Tree
@@ -350,7 +364,14 @@ func childC14(args []string) int {
 	count := map[string]int{}
 	evals := int64(0)
 	for i, c := range c14Cases(tier) {
-		if i%n != shard {
+		if args[0] == "disk" {
+			// the sandbox of this worker is on a disk file system, which hands out inode numbers again as soon as they
+			// are free (tmpfs does not): the cases in which several matches land on one destination path
+			if c.Src.Find("m1") == nil || !c.Wild {
+				continue
+			}
+			c.Disk = true
+		} else if i%n != shard {
 			continue
 		}
 		k, m := judgeC14("/", c)
@@ -404,6 +425,40 @@ func runC14(r *evid.Run) {
 			errs[i] = fmt.Sprintf("child %d: %v: %s", i, err, firstLine(stderr.String()))
 		}
 	})
+	// one more worker whose sandbox lies on a disk file system
+	if droot := scratch.DiskDir("sb14d"); droot != "" {
+		cmd := exec.Command(self, "child", "c14", "disk", "1", r.Tier, droot)
+		var stderr strings.Builder
+		cmd.Stderr = &stderr
+		b, err := cmd.Output()
+		scratch.Remove(droot)
+		agg := &c14Out{Count: map[string]int{}}
+		dec := json.NewDecoder(strings.NewReader(string(b)))
+		for {
+			var o c14Out
+			if dec.Decode(&o) != nil {
+				break
+			}
+			agg.Evals += o.Evals
+			for _, v := range o.Viol {
+				agg.Count[v.Key]++
+				v.Msg = "(sandbox on a disk file system) " + v.Msg
+				agg.Viol = append(agg.Viol, v)
+			}
+			for k, c := range o.Count {
+				agg.Count[k] += c
+			}
+		}
+		aggs = append(aggs, agg)
+		if err != nil {
+			errs = append(errs, fmt.Sprintf("disk child: %v: %s", err, firstLine(stderr.String())))
+		} else {
+			errs = append(errs, "")
+		}
+		r.Set("cases_on_disk_filesystem", agg.Evals)
+	} else {
+		r.Set("cases_on_disk_filesystem", 0)
+	}
 	total := int64(0)
 	for i, a := range aggs {
 		if errs[i] != "" {
@@ -436,6 +491,12 @@ func runC14(r *evid.Run) {
 
 func replayC14(raw json.RawMessage) string {
 	root := scratch.Dir("sb14")
+	var probe c14Case
+	if json.Unmarshal(raw, &probe) == nil && probe.Disk {
+		if d := scratch.DiskDir("sb14d"); d != "" {
+			root = d
+		}
+	}
 	defer scratch.Remove(root)
 	self, _ := os.Executable()
 	cmd := exec.Command(self, "child", "c14", "0", "1", "quick", root, string(raw))
